@@ -59,6 +59,61 @@ def record_traces(binary, outdir, tier, seed):
     return files, stats
 
 
+GEN_CFG = {"accounts": 8, "dids": 2, "validators": 1, "balance": 100000}
+GEN_PLAN = {"quick": (8, 3, 40), "thorough": (16, 14, 60)}   # (TLC simulate processes, behaviours each, events per behaviour)
+
+
+def generate_behaviours(binary, outdir, tier, seed):
+    """Spec -> code: TLC simulates MC.tla (family "gen": real constants, adversarial alphabet) from the real genesis
+    state; every generated behaviour is replayed on the real code and recorded as a trace."""
+    import subprocess
+    procs, per, depth = GEN_PLAN[tier]
+    os.makedirs(outdir, exist_ok=True)
+    cfgj = json.dumps(GEN_CFG)
+    t0 = time.time()
+    running = []
+    for i in range(procs):
+        d = os.path.join(outdir, "sim%02d" % i)
+        stage_spec(d)
+        rc, out, _ = run([binary, "genesis", "--cfg", cfgj, "--out", os.path.join(d, "genesis.json")])
+        if rc != 0:
+            raise MachineryError("genesis failed: " + out[-1000:])
+        cfg = open(os.path.join(d, "MC_Gen.cfg")).read().replace("MaxEvents = 40", "MaxEvents = %d" % depth)
+        open(os.path.join(d, "MC_Gen.cfg"), "w").write(cfg)
+        cmd = ["timeout", "900", "tlc", "-workers", "1", "-simulate", "num=%d" % per, "-depth", str(depth + 5),
+               "-seed", str(seed * 1000 + i), "-metadir", os.path.join(d, "meta"), "-config", "MC_Gen.cfg", "MC.tla"]
+        running.append((d, subprocess.Popen(cmd, cwd=d, stdout=open(os.path.join(d, "tlc.out"), "w"), stderr=subprocess.STDOUT)))
+    files = []
+    generated = 0
+    for d, p in running:
+        p.wait()
+        out = open(os.path.join(d, "tlc.out")).read()
+        if "traces generated" not in out:
+            raise MachineryError("TLC behaviour generation failed: " + out[-2000:])
+        rd = os.path.join(d, "real")
+        while True:
+            rc, rout, _ = run([binary, "replay", "--in", d, "--out", rd, "--cfg", cfgj], timeout=900)
+            if rc == 0:
+                break
+            if rc == 3:
+                # a behaviour hung the real code: its trace is recorded; drop it from the input and continue the rest
+                done = {f[:-7] for f in os.listdir(rd)}
+                for f in sorted(os.listdir(d)):
+                    if f.startswith("beh_") and f.endswith(".json") and f[:-5] in done:
+                        os.rename(os.path.join(d, f), os.path.join(d, f + ".done"))
+                rd2 = rd + "_more"
+                os.makedirs(rd2, exist_ok=True)
+                for f in os.listdir(rd):
+                    os.rename(os.path.join(rd, f), os.path.join(rd2, f))
+                continue
+            raise MachineryError("replay failed rc=%d: %s" % (rc, rout[-1500:]))
+        for base in (rd, rd + "_more"):
+            if os.path.isdir(base):
+                files += sorted(os.path.join(base, f) for f in os.listdir(base) if f.endswith(".ndjson"))
+        generated += len([f for f in os.listdir(d) if f.startswith("beh_")])
+    return files, {"tlc_generated_behaviours": generated, "gen_wall_s": round(time.time() - t0, 1)}
+
+
 def validate_traces(files, workdir, timeout=3000):
     """Concatenate traces, run TLC with Trace.tla, parse per-formula counts and violations."""
     stage_spec(workdir)
@@ -116,6 +171,10 @@ def family_run(tier, seed, use_cache=True):
         shutil.rmtree(rdir, ignore_errors=True)
         os.makedirs(rdir)
         files, dstats = record_traces(binary, os.path.join(rdir, "traces"), tier, seed)
+        gfiles, gstats = generate_behaviours(binary, os.path.join(rdir, "gen"), tier, seed)
+        dstats.update(gstats)
+        dstats["traces"] += len(gfiles)
+        files = files + gfiles
         val = validate_traces(files, os.path.join(rdir, "tlc"))
         # sample: the event kinds of the first trace
         sample = []
@@ -143,6 +202,45 @@ def prune_runs(keep=6):
         shutil.rmtree(os.path.join(d, x), ignore_errors=True)
 
 
+SEL_PLAN = {"quick": 3000, "thorough": 120000}
+
+
+def selection_run(tier, seed, use_cache=True):
+    """Function-level engine for C15 / C02: real RandomSP / RandomIndex calls checked by TLC (SelTrace.tla)."""
+    binary, bkey = build_harness()
+    key = run_key(tier, seed, "selection")
+    rdir = os.path.join(CACHE, "run", key)
+    with Lock(os.path.join(CACHE, "run-" + key + ".lock")):
+        rfile = os.path.join(rdir, "result.json")
+        if use_cache and os.path.exists(rfile):
+            return json.load(open(rfile))
+        shutil.rmtree(rdir, ignore_errors=True)
+        os.makedirs(rdir)
+        stage_spec(rdir)
+        cases_file = os.path.join(rdir, "selection.ndjson")
+        total, hangs, attempt = 0, 0, 0
+        rc, out, wall = run([binary, "selection", "--n", str(SEL_PLAN[tier]), "--seed", str(seed), "--out", cases_file], timeout=1800)
+        if rc != 0:
+            raise MachineryError("selection driver failed: " + out[-1500:])
+        rc, output, twall = tlc(rdir, "SelTrace.tla", "SelTrace.cfg", workers=1, timeout=1800)
+        open(os.path.join(rdir, "tlc.out"), "w").write(output)
+        formulas, violations, consumed = {}, [], None
+        for t in parse_tuples(output):
+            if t[0] == "COUNT":
+                formulas[t[1]] = {"exercised": t[2], "failed": t[3]}
+            elif t[0] == "VIOLATED":
+                violations.append({"formula": t[1], "trace": cases_file, "line": t[2], "seq": t[2], "kind": t[4], "single_line": True})
+            elif t[0] == "CONSUMED":
+                consumed = (t[1], t[2])
+        if rc != 0 or consumed is None or consumed[0] != consumed[1]:
+            raise MachineryError("TLC selection validation did not complete: " + output[-2000:])
+        samples = [json.loads(l) for l in open(cases_file).readlines()[400:403]]
+        res = {"dir": rdir, "cases": consumed[1], "formulas": formulas, "violations": violations, "samples": samples,
+               "wall": round(wall + twall, 1)}
+        json.dump(res, open(rfile, "w"))
+        return res
+
+
 FAMILY = ["C02", "C04", "C05", "C06", "C07", "C08", "C09", "C10", "C11", "C12", "C13", "C14", "C15", "C16"]
 
 
@@ -152,6 +250,11 @@ def run_property(pid, tier, seed, use_cache=True):
         val = fam["validation"]
         mine = {k: v for k, v in val["formulas"].items() if k.startswith(pid + "_")}
         viol = [dict(v, run=fam["dir"]) for v in val["violations"] if v["formula"].startswith(pid + "_")]
+        if pid in ("C15", "C02"):
+            sel = selection_run(tier, seed, use_cache)
+            extra = {k: v for k, v in sel["formulas"].items() if k.startswith(pid + "_") or k.startswith("Conf_")}
+            mine.update(extra)
+            viol += [v for v in sel["violations"] if v["formula"].startswith(pid + "_") or (pid == "C15" and v["formula"].startswith("Conf_"))]
         cov = {
             "states": val["states"], "transitions": max(1, val["states"] - fam["driver"]["traces"]),
             "traces_validated_against_impl": fam["driver"]["traces"],
@@ -188,7 +291,8 @@ def save_replay(pid, v):
     d = os.path.join(VERIF, "replays", pid)
     os.makedirs(d, exist_ok=True)
     with open(v["trace"]) as f:
-        lines = f.readlines()[: v["line"]]
+        lines = f.readlines()
+        lines = [lines[v["line"] - 1]] if v.get("single_line") else lines[: v["line"]]
     h = hashlib.sha256(("".join(lines) + v["formula"]).encode()).hexdigest()[:12]
     path = os.path.join(d, "%s-%s.ndjson" % (v["formula"], h))
     with open(path, "w") as f:
